@@ -140,8 +140,9 @@ pub fn packets(tier: &str, seed: u64, big: bool) -> Vec<(Packet<'static>, String
             v.push((p, "nsec-unordered".to_string()));
         }
         // names that each extend the previous one by a leading label: the compressor writes the k-th as one label
-        // and a pointer to the (k-1)-th, so that reading the last one back follows k-1 pointers (up to 126 are legal)
-        for depth in [5usize, 17, 40, 126] {
+        // and a pointer to the (k-1)-th, so that reading the last one back follows k-1 pointers (a name holds at most 127 labels,
+        // so up to 126 pointers in a row are legal)
+        for depth in [5usize, 17, 40, 126, 127] {
             let mut p = Packet::new_reply(depth as u16);
             let mut labels: Vec<Vec<u8>> = vec![];
             for k in 0..depth {
@@ -151,6 +152,21 @@ pub fn packets(tier: &str, seed: u64, big: bool) -> Vec<(Packet<'static>, String
                 else { p.answers.push(ResourceRecord::new(crate::gen::mk_name(&[b"x".to_vec()]), CLASS::IN, 1, rdata::RData::CNAME(rdata::CNAME(n)))); }
             }
             v.push((p, "many-names".to_string()));
+        }
+        // thousands of distinct name suffixes ahead of a repeated name, all below offset 16383: the table of earlier
+        // names has no bound short of the message itself (20 / 36 / 55 names of 122 labels: 2440 / 4392 / 6710 suffixes)
+        for count in [20usize, 36, 55] {
+            let mut p = Packet::new_reply(count as u16);
+            for k in 0..count {
+                let mut labels: Vec<Vec<u8>> = (0..121).map(|i| vec![b'a' + ((i * 7 + k) % 26) as u8]).collect();
+                labels.push(vec![b'0' + (k / 10) as u8, b'0' + (k % 10) as u8]);
+                p.answers.push(ResourceRecord::new(crate::gen::mk_name(&labels), CLASS::IN, 1, rdata::RData::A(rdata::A { address: k as u32 })));
+            }
+            let late = crate::gen::mk_name(&[b"late".to_vec(), b"example".to_vec()]);
+            p.additional_records.push(ResourceRecord::new(late.clone(), CLASS::IN, 1, rdata::RData::A(rdata::A { address: 1 })));
+            p.additional_records.push(ResourceRecord::new(crate::gen::mk_name(&[b"x".to_vec()]), CLASS::IN, 1, rdata::RData::CNAME(rdata::CNAME(late.clone()))));
+            p.additional_records.push(ResourceRecord::new(late, CLASS::IN, 1, rdata::RData::A(rdata::A { address: 2 })));
+            v.push((p, "many-suffixes".to_string()));
         }
     }
     v
@@ -492,6 +508,32 @@ pub fn c05(tier: &str, seed: u64) -> Vec<Case> {
         if rule.contains("overrun") && class_of(&out) == "ok" { c = c.fail("rdata-overrun-accepted", format!("{}: an inner length that overruns the RDATA is satisfied from the bytes of the next record", rule)); }
         v.push(c);
     }
+    // crowded sections: tens to thousands of small entries in one section and a few in the others - every one of them
+    // reported, at its own index, in its own section (a zone transfer chunk, a large RRset, an mDNS response for a rack)
+    {
+        let mut r = Rng::new(seed ^ 0xC05D);
+        let sizes: &[usize] = if tier == "thorough" { &[11, 31, 32, 33, 63, 64, 65, 66, 127, 128, 129, 255, 256, 257, 300, 1000, 1023, 1024, 1025, 4096, 5000] } else { &[11, 33, 64, 65, 66, 128, 129, 256, 257, 300, 1025] };
+        for &n in sizes {
+            for crowded in 0..4usize {
+                let counts: Vec<usize> = (0..4).map(|s| if s == crowded { n } else { r.below(3) as usize }).collect();
+                let mut b = vec![0u8, 5, 0x80, 0];
+                for c in &counts { b.extend_from_slice(&(*c as u16).to_be_bytes()); }
+                for (s, c) in counts.iter().enumerate() {
+                    for k in 0..*c {
+                        b.extend_from_slice(&[1, b'a' + (k % 26) as u8, 0]);
+                        if s == 0 { b.extend_from_slice(&[0, 1, 0, 1]); }
+                        else { b.extend_from_slice(&[0, 1, 0, 1, 0, 0, (k >> 8) as u8, k as u8, 0, 4, 10, s as u8, (k >> 8) as u8, k as u8]); }
+                    }
+                }
+                let out = parse_out(&b);
+                let mut c = Case::new(format!("parse {}", text::hex(&b)), out.clone()).tag("crowded-section").tag(&format!("outcome:{}", class_of(&out)));
+                if n > 300 { c.proj = Proj::None; c.op = String::new(); }
+                if let Some((k, m)) = framing_oracle(&b) { c = c.fail(&k, m); }
+                if class_of(&out) != "ok" { c = c.fail("reference-encoding-misread", format!("a well-formed message with section counts {:?} is rejected", counts)); }
+                v.push(c);
+            }
+        }
+    }
     // valid packets too (mostly accepted)
     for (p, tag) in packets(tier, seed ^ 0x99, false).into_iter().take(if tier == "thorough" { 10000 } else { 1200 }) {
         for comp in [false, true] {
@@ -518,6 +560,13 @@ pub fn c11(tier: &str, seed: u64) -> Vec<Case> {
         let mut b = vec![(w >> 3) as u8, w as u8, (w >> 8) as u8, w as u8, 0, 1, 0, 0, 0, 0, 0, 0, 1, b'a', 0, 0, 1, 0, 1];
         if r.chance(1, 4) { b[11] = 1; b.extend_from_slice(&[0, 0, 41, 2, 0, r.next() as u8, r.next() as u8, 0, 0, 0, 0]); }
         inputs.push((b, "header-word".to_string()));
+    }
+    // received messages with names of up to 127 labels and owner names that each extend the previous one (read back
+    // from the compressing writer the last one follows up to 126 pointers), given uncompressed and compressed
+    for (p, tag) in packets(tier, seed ^ 0x3333, true) {
+        if tag != "many-names" && tag != "many-suffixes" { continue; }
+        if let Ok(b) = p.build_bytes_vec() { if b.len() < 20000 { inputs.push((b, format!("received:{}", tag))); } }
+        if let Ok(b) = p.build_bytes_vec_compressed() { if b.len() < 20000 { inputs.push((b, format!("received:{}", tag))); } }
     }
     // accepted messages beyond 16 KiB in which names first appear past offset 16383 and repeat
     for (k, (p, _)) in boundary_packets(tier).into_iter().enumerate() {
